@@ -126,6 +126,28 @@ Theorem pretty_only_chooses_whitespace margin es sz o cl : es <> [] ->
                   Forall2 (fun e t => exists o' c', t = append_tree margin e o' c') es ts.
 Proof. apply append_tree_seq. Qed.
 
+(* a leaf of the layout tree is written as it is, wherever it sits: the offset and the number of closing
+   parentheses after it play no part (appendTree returns the buffer), so nothing the layout does can reach
+   into the lexemes a leaf holds *)
+Theorem leaf_position_independent margin (b : list byte) o cl o' cl' : b <> [] ->
+  append_tree margin (leaf_node b) o cl = append_tree margin (leaf_node b) o' cl'.
+Proof. intros H. rewrite !append_leaf by exact H. reflexivity. Qed.
+(* in particular a vector or an array that is an element of a list (createTree renders it into a leaf buffer of
+   its own) has, at every offset and however it is wrapped, exactly the text it has as a top-level object *)
+Theorem nested_array_text c x o cl : match x with OVec _ | OArr _ _ => True | _ => False end ->
+  append_tree (p_margin c) (ptree c x) o cl = pretty c x.
+Proof.
+  intros Hx. assert (G : forall b, b <> [] -> ptree c x = leaf_node b -> append_tree (p_margin c) (ptree c x) o cl = node_text c (ptree c x)).
+  { intros b Hb E. unfold node_text. rewrite E. apply leaf_position_independent. exact Hb. }
+  destruct x as [| | | | | | | | | |xs|rank rows|]; try contradiction; unfold pretty.
+  - destruct xs as [|y ys].
+    + apply (G (if p_array c then [35; 40; 41] else novec_text c 0)); [destruct (p_array c); discriminate|reflexivity].
+    + rewrite ptree_vec. eapply G; [|reflexivity]. destruct (p_array c); discriminate.
+  - destruct rows as [|y ys].
+    + eapply G; [|reflexivity]. unfold array_prefix. destruct (p_array c); discriminate.
+    + rewrite ptree_arr. eapply G; [|reflexivity]. unfold array_prefix. destruct (p_array c); discriminate.
+Qed.
+
 Definition with_layout (c : pcfg) (pretty : bool) (margin : N) : pcfg :=
   Pcfg (p_base c) (p_radix c) (p_case c) pretty margin (p_readably c) (p_escape c) (p_array c).
 (* the guard does not look at the layout variables: the guard of a configuration is the guard of the same
